@@ -538,6 +538,10 @@ class ktensor:
             permutation, (tuple, list, np.ndarray)
         ):
             if len(permutation) == self.ncomponents:
+                if sorted(np.asarray(permutation).tolist()) != list(
+                    range(self.ncomponents)
+                ):
+                    assert False, "Permutation must be a permutation of the components."
                 self.weights = self.weights[permutation]
                 for i in range(self.ndims):
                     self.factor_matrices[i] = self.factor_matrices[i][:, permutation]
